@@ -54,6 +54,8 @@ def required_cells(tier):
     req.update({"group:" + g: 2 for g in GROUPS})
     req.update({"alias": 6, "history": 6, "history:control-on-two-grids": 3,
                 "history:getters-read-in-between": 3,
+                "history:estimate-then-compute": 1,
+                "history:process-tensor-edited-after-use": 1,
                 "attr:alpha": 1,
                 "attr:temperature": 1, "attr:cutoff": 1, "attr:zeta": 1,
                 "attr:cutoff_type": 1, "attr:j_function": 1,
@@ -611,7 +613,69 @@ def run_history(case):
         str(b), str(sm), str(pt), str(ob["params"])
         return np.zeros(1)
 
-    ops = {"peek": op_peek, "tempo": op_tempo, "dyn": op_dyn, "corr": op_corr,
+    edit_devs = []
+
+    def op_ptedit(ob, pt):
+        """A process tensor that was already used is edited through its
+        public interface (a stored rank-3 tensor replaced by another rank-3
+        tensor, caps recomputed) and used again: it must then behave like a
+        process tensor that was built with the new tensors from scratch."""
+        p2 = make_pt(ob)
+        oqupy.compute_dynamics(ob["sysm"], rho.copy(), process_tensor=p2,
+                               progress_type="silent")          # first use
+        n2 = len(p2)
+        raws = []
+        for k in range(n2):
+            t4 = np.array(p2.get_mpo_tensor(k, transformed=False))
+            raws.append(np.stack([t4[:, :, q, q] for q in
+                                  range(t4.shape[2])], axis=-1))
+        kk = 1 % n2
+        new = raws[kk] * (0.5 + 0.25j)
+        p2.set_mpo_tensor(kk, new)
+        p2.compute_caps()
+        edited = np.array(oqupy.compute_dynamics(
+            ob["sysm"], rho.copy(), process_tensor=p2,
+            progress_type="silent").states)
+        scratch_pt = oqupy.SimpleProcessTensor(
+            p2.hilbert_space_dimension, dt=p2.dt,
+            transform_in=p2.transform_in, transform_out=p2.transform_out)
+        for k in range(n2):
+            scratch_pt.set_mpo_tensor(k, new if k == kk else raws[k])
+        scratch_pt.compute_caps()
+        scratch = np.array(oqupy.compute_dynamics(
+            ob["sysm"], rho.copy(), process_tensor=scratch_pt,
+            progress_type="silent").states)
+        edit_devs.append(float(np.abs(edited - scratch).max()))
+        return np.zeros(1)
+
+    def op_guess(ob, pt):
+        """A read-only estimate of computation parameters for the shared
+        system and bath."""
+        import warnings
+        with warnings.catch_warnings():
+            warnings.simplefilter("ignore")
+            prm = oqupy.guess_tempo_parameters(
+                bath=ob["bath"], start_time=0.0, end_time=end,
+                system=ob["sysm"], tolerance=1e-2)
+        return np.array([prm.dt, -1.0 if prm.dkmax is None else prm.dkmax,
+                         prm.epsrel])
+
+    def object_state(ob):
+        """What the public attributes of the shared parameter objects show
+        (bytes)."""
+        b, sm = ob["bath"], ob["sysm"]
+        parts = [np.asarray(b.coupling_operator), np.asarray(sm.hamiltonian),
+                 np.asarray(sm.gammas, dtype=complex)]
+        parts += [np.asarray(x) for x in sm.lindblad_operators]
+        c = ob["corr"]
+        parts.append(np.array([c.cutoff, c.temperature], dtype=complex))
+        prm = ob["params"]
+        parts.append(np.array([prm.dt, prm.epsrel, -1 if prm.dkmax is None
+                               else prm.dkmax], dtype=complex))
+        return b"".join(np.ascontiguousarray(x, dtype=complex).tobytes()
+                        for x in parts)
+
+    ops = {"ptedit": op_ptedit, "guess": op_guess, "peek": op_peek, "tempo": op_tempo, "dyn": op_dyn, "corr": op_corr,
            "grad": op_grad, "tebd": op_tebd, "pt": op_pt, "eta": op_eta,
            "ctl": op_ctl, "ctl_shift": op_ctl_shift, "ctl_dt": op_ctl_dt}
     names = list(ops)
@@ -620,6 +684,13 @@ def run_history(case):
     if i % 2 == 1:
         seq[0] = "peek"
         seq[len(seq) // 2] = "peek"
+    if i % 4 == 2:
+        seq[-1] = "ptedit"
+    if i % 4 == 3:
+        # estimate first, compute afterwards
+        seq[0] = "guess"
+        if seq[1] in ("peek", "guess", "eta"):
+            seq[1] = "dyn"
     if i % 2 == 0:
         # make sure the shared Control meets at least two different grids
         ctl = ["ctl", "ctl_shift", "ctl_dt"]
@@ -632,7 +703,16 @@ def run_history(case):
     # tolerance: truncated tensor networks recomputed from equal inputs are
     # deterministic, so equality is demanded tightly
     for step, name in enumerate(seq):
+        state0 = object_state(shared)
         got = ops[name](shared, shared_pt)
+        if object_state(shared) != state0:
+            violations.append({
+                "what": f"history {seq}: operation {step} ({name}) changed "
+                        f"what the caller's system / bath / parameter "
+                        f"objects show (public attributes differ after the "
+                        f"call)", "mechanism": "caller-object-modified",
+                "detail": {"seq": seq}})
+            break
         f = fresh()
         exp = ops[name](f, make_pt(f))
         if got.shape != exp.shape:
@@ -654,6 +734,17 @@ def run_history(case):
                 "mechanism": "stale-state", "detail": {"seq": seq}})
             break
     cells = ["history"]
+    if edit_devs:
+        cells.append("history:process-tensor-edited-after-use")
+        if max(edit_devs) > 1e-10:
+            violations.append({
+                "what": f"a process tensor whose rank-3 tensor was replaced "
+                        f"(set_mpo_tensor + compute_caps) after its first use "
+                        f"differs from one built with the new tensors from "
+                        f"scratch by {max(edit_devs):.3e}",
+                "mechanism": "stale-state", "detail": {"seq": seq}})
+    if seq[0] == "guess":
+        cells.append("history:estimate-then-compute")
     if "peek" in seq[:-1]:
         cells.append("history:getters-read-in-between")
     if len({x for x in seq if x.startswith("ctl")}) >= 2:
